@@ -520,6 +520,89 @@ func envFsm() string {
 		return true
 	})
 
+	// ---- 8. the four callbacks: the error of the negative-weight hook pass reaches e.Cancel - it is
+	// cancelled on, or joined into what is cancelled on, before the variable that holds it is
+	// overwritten (enter_state / after_event have no early return after their negative pass)
+	hookErrorsLost := 0
+	for _, el := range cbLit.Elts {
+		kv := el.(*ast.KeyValueExpr)
+		var body *ast.BlockStmt
+		switch v := neScope.resolve(kv.Value).(type) {
+		case *ast.FuncLit:
+			body = v.Body
+		default:
+			if fds := funcsByName[selName(v)]; len(fds) == 1 {
+				body = fds[0].Body
+			}
+		}
+		key, _ := neScope.str(kv.Key)
+		if body == nil {
+			die("envfsm: callback %s is neither a function literal nor a function of the package", key)
+		}
+		mentions := func(e ast.Node, set map[string]bool) bool {
+			hit := false
+			ast.Inspect(e, func(x ast.Node) bool {
+				if id, ok := x.(*ast.Ident); ok && set[id.Name] {
+					hit = true
+				}
+				return !hit
+			})
+			return hit
+		}
+		isCall := func(e ast.Expr, name string) bool {
+			c, ok := e.(*ast.CallExpr)
+			return ok && selName(c.Fun) == name
+		}
+		tainted := map[string]bool{}
+		started, consumed, lost := false, false, false
+		ast.Inspect(body, func(x ast.Node) bool {
+			if consumed || lost {
+				return false
+			}
+			switch v := x.(type) {
+			case *ast.FuncLit:
+				return false
+			case *ast.AssignStmt:
+				if len(v.Lhs) != len(v.Rhs) {
+					return true
+				}
+				for i, l := range v.Lhs {
+					id, ok := l.(*ast.Ident)
+					if !ok {
+						continue
+					}
+					switch {
+					case !started && isCall(v.Rhs[i], "handleHooksWithNegativeWeights"):
+						started = true
+						tainted[id.Name] = true
+					case started && mentions(v.Rhs[i], tainted):
+						tainted[id.Name] = true
+					case started && tainted[id.Name]:
+						delete(tainted, id.Name) // overwritten by something that does not carry it
+						if len(tainted) == 0 {
+							lost = true
+						}
+					}
+				}
+			case *ast.CallExpr:
+				if started && selName(v.Fun) == "Cancel" {
+					for _, a := range v.Args {
+						if mentions(a, tainted) {
+							consumed = true
+						}
+					}
+				}
+			}
+			return true
+		})
+		if !started {
+			die("envfsm: callback %s does not run the negative-weight hook pass (handleHooksWithNegativeWeights)", key)
+		}
+		if lost || !consumed {
+			hookErrorsLost++
+		}
+	}
+
 	// ---- output
 	var b strings.Builder
 	b.WriteString("(* regenerated on every run by harness/cmd/translate (envfsm) from\n   core/environment/environment.go, manager.go, transition*.go, core/server.go *)\n")
@@ -583,5 +666,7 @@ func envFsm() string {
 	b.WriteString("\n(* RpcServer.ControlEnvironment: ways out of the function (return, goto, panic) between the\n   requested TryTransition and the fallback to ERROR; uses of the caller's context after the\n   requested TryTransition *)\n")
 	fmt.Fprintf(&b, "Definition env_control_exits_before_fallback : N := %d.\n", controlExits)
 	fmt.Fprintf(&b, "Definition env_control_ctx_uses_after_transition : N := %d.\n", controlCtxUses)
+	b.WriteString("\n(* callbacks (of the four) in which the error of the negative-weight hook pass is overwritten or\n   dropped before it reaches e.Cancel *)\n")
+	fmt.Fprintf(&b, "Definition env_hook_errors_lost : N := %d.\n", hookErrorsLost)
 	return b.String()
 }
